@@ -10,7 +10,7 @@ from ..cfg import build_cfg, calls_in, node_calls
 from ..core import Ctx, property_info, rule
 from ..jinja import outputs, template_files
 from ..model import AnalysisError, FuncInfo, norm_text, walk_no_nested
-from ..q import A, asrc, is_self_attr, kwarg, stores, unparse
+from ..q import A, asrc, call_name_of, control_deps, forms, is_self_attr, kwarg, stores, unparse
 
 SCOPE = ("xsdata.codegen", "xsdata.formats.dataclass.generator", "xsdata.formats.dataclass.filters", "xsdata.formats.mixins", "xsdata.models.config", "xsdata.models.xsd",
          "xsdata.models.mixins", "xsdata.models.wsdl", "xsdata.models.dtd", "xsdata.utils.text", "xsdata.utils.package", "xsdata.utils.graphs", "xsdata.utils.collections")
@@ -208,16 +208,31 @@ def duplicate_handling_keyed_like_naming(ctx: Ctx) -> None:
 @rule("C07.R6")
 def free_name_searches_compare_slugs(ctx: Ctx) -> None:
     """Every 'is this name taken?' search compares alnum slugs (what survives the naming conventions), and options applied late are re-validated."""
+    def slug_only_membership(fi: FuncInfo, coll_pred) -> tuple[bool, int]:
+        """Every `x in <reserved collection>` test of the function compares an alnum slug (text.alnum(...) / get_slug(...)), in one of its expansion forms."""
+        g = build_cfg(fi.node)
+        n = 0
+        ok = True
+        for t in g.nodes:
+            if t.kind == "test" and isinstance(t.ast, ast.Compare) and len(t.ast.ops) == 1 and isinstance(t.ast.ops[0], (ast.In, ast.NotIn)) and coll_pred(t.ast.comparators[0]):
+                n += 1
+                ok = ok and any(f.startswith(("text.alnum(", "get_slug(", "alnum(")) for f in forms(fi, t, t.ast.left))
+        return ok and n > 0, n
+
     na = ctx.repo.func("xsdata.codegen.handlers.disambiguate_choices:DisambiguateChoices.next_available_name")
-    a = asrc(na)
-    ok = A("_={text.alnum(_.name)for_in_.inner}") in a and A("_=text.alnum(_);if_notin_:;return_") in a
-    ctx.ob("DisambiguateChoices.next_available_name reserves and compares text.alnum slugs of the inner class names", ok, at=na, construct="inner name search",
+    reserved_locals = {tgt.id for st, tgt, v in stores(na.node) if isinstance(tgt, ast.Name) and isinstance(v, (ast.SetComp, ast.Set)) or (isinstance(tgt, ast.Name) and isinstance(v, ast.Call) and unparse(v.func) == "set")}
+    built = [v for st, tgt, v in stores(na.node) if isinstance(tgt, ast.Name) and tgt.id in reserved_locals and v is not None]
+    built_ok = bool(built) and all((isinstance(v, ast.SetComp) and isinstance(v.elt, ast.Call) and call_name_of(v.elt) == "alnum") or (isinstance(v, ast.Call) and any(isinstance(x, ast.Name) and x.id in ("get_slug",) or (isinstance(x, ast.Attribute) and x.attr == "alnum") for x in ast.walk(v))) for v in built)
+    ok, _ = slug_only_membership(na, lambda c: isinstance(c, ast.Name) and c.id in reserved_locals)
+    ctx.ob("DisambiguateChoices.next_available_name reserves and compares text.alnum slugs of the inner class names", ok and built_ok, at=na, construct="inner name search",
            msg="raw names are compared: `item` and `Item` are both free, both become class Item and the second shadows the first")
     un = ctx.repo.func("xsdata.codegen.utils:ClassUtils.unique_name")
-    a = asrc(un)
-    ctx.ob("ClassUtils.unique_name compares text.alnum slugs against the reserved set", A("iftext.alnum(_)in_:") in a and A("whiletext.alnum(f'{_}_{_}')in_:") in a, at=un, construct="unique_name", msg="raw names compared")
+    ok, n = slug_only_membership(un, lambda c: isinstance(c, ast.Name) and c.id == "reserved")
+    ctx.ob("ClassUtils.unique_name compares text.alnum slugs against the reserved set", ok, at=un, construct="unique_name", msg="raw names compared")
     ri = ctx.repo.func("xsdata.codegen.utils:ClassUtils.rename_attributes_by_index")
-    ctx.ob("rename_attributes_by_index reserves the slugs of all attrs", A("_=set(map(get_slug,_))") in asrc(ri), at=ri, construct="reserved slugs", msg="reserved set not slug based")
+    rsv = [v for st, tgt, v in stores(ri.node) if isinstance(tgt, ast.Name) and v is not None and isinstance(v, (ast.Call, ast.SetComp)) and (isinstance(v, ast.SetComp) or unparse(v.func) == "set")]
+    ok = bool(rsv) and all(any((isinstance(x, ast.Name) and x.id == "get_slug") or (isinstance(x, ast.Attribute) and x.attr in ("alnum", "slug")) for x in ast.walk(v)) for v in rsv)
+    ctx.ob("rename_attributes_by_index reserves the slugs of all attrs", ok, at=ri, construct="reserved slugs", msg="reserved set not slug based")
     up = ctx.repo.func("xsdata.models.config:GeneratorOutput.update")
     g = build_cfg(up.node)
     upd = [n for n in g.stmts() if any(unparse(c.func) == "objects.update" for c in node_calls(n))]
@@ -229,4 +244,8 @@ def free_name_searches_compare_slugs(ctx: Ctx) -> None:
     pi = of.methods.get("__post_init__")
     ctx.ob("OutputFormat.__post_init__ validates", pi is not None and "self.validate()" in unparse(pi.node), at=pi or up, construct="format post_init", msg="constructor route not validated")
     v = of.methods.get("validate")
-    ctx.ob("OutputFormat.validate enables eq when order is set", v is not None and A("ifself.orderand(notself.eq):;self.eq=True") in asrc(v), at=v or up, construct="order implies eq", msg="conflict rule changed")
+    ok = False
+    if v is not None:
+        sets = [st for st, tgt, val in stores(v.node) if is_self_attr(tgt, "eq") and isinstance(val, ast.Constant) and val.value is True]
+        ok = len(sets) == 1 and any(t == "self.order" and pol for t, pol, _ in control_deps(v, sets[0]))
+    ctx.ob("OutputFormat.validate enables eq when order is set", ok, at=v or up, construct="order implies eq", msg="conflict rule changed")
